@@ -25,6 +25,7 @@ from wn._queries import (
     find_senses,
     find_synsets,
     get_lexicon,
+    find_lexicon_exactly,
     get_modified,
     get_lexicon_dependencies,
     get_lexicon_extension_bases,
@@ -547,7 +548,13 @@ class Relation:
 
     def lexicon(self) -> Lexicon:
         """Return the :class:`Lexicon` where the relation is defined."""
-        return _to_lexicon(next(find_lexicons(self._lexicon)))
+        # relations from the database carry the exact id:version of their
+        # lexicon, which must not be read as a list of patterns (a version
+        # may contain spaces or pattern characters)
+        row = find_lexicon_exactly(self._lexicon)
+        if row is None:
+            row = next(find_lexicons(self._lexicon))
+        return _to_lexicon(row)
 
     def metadata(self) -> Metadata:
         """Return the relation's metadata."""
